@@ -8,7 +8,6 @@ import (
 	"html"
 	"math"
 	"net/url"
-	"reflect"
 	"regexp"
 	"strings"
 	"time"
@@ -332,26 +331,19 @@ func splitFilter(s, sep string) any {
 }
 
 func uniqFilter(a []any) (result []any) {
-	seenMap := map[any]bool{}
-	seenNil := false
+	// Elements are distinct when they are not equal in the Liquid sense
+	// (so 1, int8(1) and 1.0 are one element). Strings take a fast path.
+	seenStrings := map[string]bool{}
 	seen := func(item any) bool {
-		if item == nil {
-			if seenNil {
+		if s, ok := item.(string); ok {
+			if seenStrings[s] {
 				return true
 			}
-			seenNil = true
+			seenStrings[s] = true
 			return false
 		}
-		if k := reflect.TypeOf(item).Kind(); k < reflect.Array || k == reflect.Ptr || k == reflect.UnsafePointer {
-			if seenMap[item] {
-				return true
-			}
-			seenMap[item] = true
-			return false
-		}
-		// the O(n^2) case:
 		for _, other := range result {
-			if other != nil && eqItems(item, other) {
+			if _, ok := other.(string); !ok && values.Equal(item, other) {
 				return true
 			}
 		}
@@ -363,11 +355,4 @@ func uniqFilter(a []any) (result []any) {
 		}
 	}
 	return
-}
-
-func eqItems(a, b any) bool {
-	if reflect.TypeOf(a).Comparable() && reflect.TypeOf(b).Comparable() {
-		return a == b
-	}
-	return reflect.DeepEqual(a, b)
 }
